@@ -97,6 +97,22 @@ def _mk_filter_name(eng, st, n):
     return V(("data", "Filter"), FILTER["ctor"](KIND["NAME"], n.x))
 
 
+@REG.specfun("mk_filter_parent")
+def _mk_filter_parent(eng, st, n):
+    return V(("data", "Filter"), FILTER["ctor"](KIND["PARENT"], n.x))
+
+
+@REG.specfun("mk_filter_regex")
+def _mk_filter_regex(eng, st, n):
+    return V(("data", "Filter"), FILTER["ctor"](KIND["REGEX"], n.x))
+
+
+@REG.specfun("mk_filter_regex_glob")
+def _mk_filter_regex_glob(eng, st, n):
+    g = eng.reg.specfuns["glob2regex"](eng, st, n)
+    return V(("data", "Filter"), FILTER["ctor"](KIND["REGEX"], g.x))
+
+
 @REG.specfun("implies")
 def _implies(eng, st, a, b):
     return vbool(z3.Implies(eng.truth(a), eng.truth(b)))
@@ -203,7 +219,7 @@ def _isinstance(eng, v, names):
     k = v.t[0]
     if k == "opt":
         return z3.And(z3.Not(v.x[0]), _isinstance(eng, v.x[1], names))
-    table = {"str": {"str"}, "list": {"list"}, "bag": {"list"}, "seq": {"list"}, "tuple": {"tuple"},
+    table = {"str": {"str"}, "node": {"str"}, "list": {"list"}, "bag": {"list"}, "seq": {"list"}, "tuple": {"tuple"},
              "set": {"set"}, "dict": {"dict"}, "int": {"int"}, "bool": {"bool", "int"}, "none": set()}
     if k in table:
         return z3.BoolVal(bool(table[k] & set(names)))
@@ -217,3 +233,40 @@ REG.isinstance_ = _isinstance
 def _unwrap(eng, st, a):
     """The value of an Optional that is known (by the surrounding formula) not to be None."""
     return a.x[1] if a.t[0] == "opt" else a
+
+
+def set_function(name, params, elem, elem_type, body):
+    """A set-valued specification function  name(params) = {elem | body}  as an uninterpreted symbol with its
+    definitional axiom (conservative extension). Equal arguments give the SAME term, so contracts that mention
+    the set stay aligned by congruence alone."""
+    ptypes = {k: parse_type(v) for k, v in params.items()}
+    et = parse_type(elem_type)
+    rng = z3.ArraySort(sort_of(et), z3.BoolSort())
+    state = {}
+
+    def fn(eng, st, *args):
+        vs = [eng.typed(a if a.t[0] not in ("list",) else a, t) if t[0] not in ("bag", "set") else eng.reg.as_membership(eng, a)
+              for a, t in zip(args, ptypes.values())]
+        terms = [v.x for v in vs]
+        if "f" not in state:
+            state["f"] = z3.Function(name, *[t.sort() for t in terms], rng)
+        if name not in eng.axioms_used:
+            saved_bound, saved_spec, saved_q = dict(eng.bound), eng.spec, getattr(eng, "qdepth", 0)
+            eng.spec, eng.qdepth = True, 80
+            try:
+                pvs = {pn: eng.bvar("ax!" + pn, pt) for pn, pt in ptypes.items()}
+                ev_ = eng.bvar("ax!" + elem, et)
+                eng.bound = dict(pvs)
+                eng.bound[elem] = ev_
+                eng.qdepth = 81
+                from pyvc.state import State as _S
+                b = eng.truth(eng.ev1(eng.reg.parse_spec(body), _S()))
+                consts = [c for v in pvs.values() for c in eng.reg.consts_of(v)] + eng.reg.consts_of(ev_)
+                app = z3.Select(state["f"](*[v.x for v in pvs.values()]), to_term(ev_))
+                eng.axioms_used[name] = z3.ForAll(consts, app == b, patterns=[app])
+            finally:
+                eng.bound, eng.spec, eng.qdepth = saved_bound, saved_spec, saved_q
+        return V(("bag", et), state["f"](*terms))
+
+    REG.specfuns[name] = fn
+    return fn
